@@ -74,6 +74,17 @@ type IAB interface {
 
 func (*TA) MA() {}
 func (*TA) MB() {}
+func (*TA) MC() {}
+
+// IC is a third interface *TA implements, unrelated to IA / IAB.
+type IC interface{ MC() }
+
+// CodedErr is an error result type that is not exactly `error`.
+type CodedErr interface {
+	error
+	Code() int
+}
+
 func (*TB) MA() {}
 
 // NS is a named slice with a method: it implements IA-like interface INS.
@@ -101,18 +112,20 @@ type NS2 []*TA
 func (NS2) M2() {}
 
 var (
-	tA    = reflect.TypeOf((*TA)(nil))
-	tB    = reflect.TypeOf((*TB)(nil))
-	tC    = reflect.TypeOf((*TC)(nil))
-	tD    = reflect.TypeOf((*TD)(nil))
-	tIA   = reflect.TypeOf((*IA)(nil)).Elem()
-	tIAB  = reflect.TypeOf((*IAB)(nil)).Elem()
-	tNS   = reflect.TypeOf(NS(nil))
-	tINS  = reflect.TypeOf((*INS)(nil)).Elem()
-	tNS2  = reflect.TypeOf(NS2(nil))
-	tPad2 = reflect.TypeOf(Pad2{})
-	tErr  = reflect.TypeOf((*error)(nil)).Elem()
-	tInt  = reflect.TypeOf(int(0))
+	tA        = reflect.TypeOf((*TA)(nil))
+	tB        = reflect.TypeOf((*TB)(nil))
+	tC        = reflect.TypeOf((*TC)(nil))
+	tD        = reflect.TypeOf((*TD)(nil))
+	tIA       = reflect.TypeOf((*IA)(nil)).Elem()
+	tIAB      = reflect.TypeOf((*IAB)(nil)).Elem()
+	tNS       = reflect.TypeOf(NS(nil))
+	tINS      = reflect.TypeOf((*INS)(nil)).Elem()
+	tNS2      = reflect.TypeOf(NS2(nil))
+	tPad2     = reflect.TypeOf(Pad2{})
+	tIC       = reflect.TypeOf((*IC)(nil)).Elem()
+	tCodedErr = reflect.TypeOf((*CodedErr)(nil)).Elem()
+	tErr      = reflect.TypeOf((*error)(nil)).Elem()
+	tInt      = reflect.TypeOf(int(0))
 )
 
 // TypeOf maps a type code to the Go type. "[X]" is a slice of X.
@@ -141,6 +154,8 @@ func TypeOf(code string) reflect.Type {
 		return tNS2
 	case "Pad2":
 		return tPad2
+	case "IC":
+		return tIC
 	case "int":
 		return tInt
 	case "error":
@@ -171,6 +186,8 @@ func AsPtr(code string) interface{} {
 		return new(IAB)
 	case "INS":
 		return new(INS)
+	case "IC":
+		return new(IC)
 	}
 	panic("universe: AsPtr of non-interface " + code)
 }
